@@ -92,7 +92,7 @@ func (c *Check) writeEvidence(wall time.Duration, violations, known int) {
 		"troubles":                 len(c.troubles),
 		"components": map[string]interface{}{
 			"real": []string{"go-domdistiller (rewritten scratch copy of /repo's working tree)", "go-shiori/dom", "golang.org/x/net/html", "cascadia", "gogs/chardet (go statements gated)", "golang.org/x/text", "logrus", "net/http client (redirects, timeout, cancelTimerBody)", "os files"},
-			"stub": []string{"HTTP transport/server (SimTransport)", "clock (testing/synctest bubble)", "task scheduler (plan-driven baton)", "map-order chooser", "goroutine release order of the charset detector", "reader/file/log-sink devices"},
+			"stub": []string{"HTTP transport/server (SimTransport)", "clock (testing/synctest bubble; clock reads of the code under test charged with simulated CPU time)", "task scheduler (plan-driven baton)", "map-order chooser", "goroutine release order of the charset detector", "reader/file devices", "log device behind the library's logger (failing, slow, stuck)", "sync.Pool in the -race build (keeps nothing: no incidental happens-before edges between serialised callers)"},
 		},
 	}
 	ev := map[string]interface{}{
@@ -106,6 +106,7 @@ func (c *Check) writeEvidence(wall time.Duration, violations, known int) {
 			"the Go race detector and testing/synctest (go1.26.8) are trusted",
 			"the rewriter preserves semantics when the simulator is idle — checked on this run by the repository's own test suite executed against the rewritten scratch copy (rewriter guard)",
 			"dependencies run as atomic segments: no interleaving inside a dependency call is explored",
+			"race reports need two accesses that no other synchronisation orders: under the serialising scheduler an access pair that is always separated by a synchronising call of the standard library stays unreported (the isolation oracle is the net below)",
 			"ApplyForURL runs against a stub transport: real TCP/TLS behaviour is outside the simulator",
 		},
 		"wall_s":     wall.Seconds(),
